@@ -191,6 +191,10 @@ func (w *Worker) checkWith(extra *term.Term) solver.Result {
 	w.emitAssert(extra)
 	r := w.S.Check()
 	w.S.Send("(pop 1)\n")
+	if w.S.Dead {
+		w.reviveSolver()
+		w.S.Stats.Errors-- // a hard timeout is an inconclusive answer, not a solver error
+	}
 	if r == solver.Unknown {
 		// z3's incremental core can be far slower than its one-shot tactics
 		// (bit-blasting + SAT): retry the query as a stand-alone script
@@ -200,6 +204,22 @@ func (w *Worker) checkWith(extra *term.Term) solver.Result {
 		}
 	}
 	return r
+}
+
+// reviveSolver restarts the incremental solver after a hard timeout and
+// re-establishes the current path condition.
+func (w *Worker) reviveSolver() {
+	stats := w.S.Stats
+	if err := w.S.Restart(); err != nil {
+		panic(pathAbort{"unsupported", "solver restart failed: " + err.Error()})
+	}
+	w.S.Stats = stats
+	w.TF.NewEpoch()
+	w.pcOpen = false
+	w.resetSolverPath()
+	for _, c := range w.pc {
+		w.emitAssert(c)
+	}
 }
 
 // checkFresh decides pc && extra in a second solver process without push/pop.
@@ -229,6 +249,11 @@ func (w *Worker) checkFresh(extra *term.Term, wantModel bool) (solver.Result, ma
 	w.S2.Send(sb.String())
 	r := w.S2.Check()
 	w.freshQueries++
+	if w.S2.Dead {
+		w.S2.Close()
+		w.S2 = nil
+		return solver.Unknown, nil
+	}
 	if r != solver.Sat || !wantModel {
 		return r, nil
 	}
